@@ -414,7 +414,12 @@ messageTypeSwitching:
 func (m *MTProto) tryToProcessErr(e *ErrResponseCode) error {
 	switch e.Message {
 	case "PHONE_MIGRATE_X":
-		newIP, found := m.dclist[e.AdditionalInfo.(int)]
+		dcID, ok := e.AdditionalInfo.(int)
+		if !ok {
+			return e // no DC id in the error (e.g. the literal text PHONE_MIGRATE_X), nothing to migrate to
+		}
+
+		newIP, found := m.dclist[dcID]
 		if !found {
 			return errors.Wrapf(e, "DC with id %v not found", e.AdditionalInfo)
 		}
